@@ -174,6 +174,12 @@ def IHandler.answered (h : IHandler) (line : Str) : IHandler :=
 
 /-! ### a new request -/
 
+/-- the prompt text of a blocking request: the pager's “press ENTER to continue”, or the message prompt of
+`get_user_input` -/
+def blockingText (P : Prog) (cont : Bool) : Str :=
+  if cont then promptText P contPrompt else
+    (match textPrompt P.cc msgPrompt P.width with | .ok s => s | .error _ => [])
+
 /-- the freshly created `InputHandler` object -/
 def freshIH (source : Src) (skip : Bool) (cb : Option Nat) : IHandler := { source := source, skip := skip, cb := cb }
 
